@@ -57,6 +57,27 @@ EmitOK(r) ==
               /\ FlgIndep(p.flg)
               /\ p.csize = r.opts.size)
 
+\* field level: r.ref is the reference parser's (strict) summary of the emitted bytes, whose
+\* agreement with LZ4Frame!Parse is established on the byte-level records of the same run
+EmitBigOK(r) ==
+    LET p == r.ref
+        K == Len(p.blocks)
+    IN  /\ p.status = "ok"
+        /\ p.consumed = p.total
+        /\ r.same
+        /\ p.contentLen = r.inputLen
+        /\ p.legacy = r.opts.legacy
+        /\ (~r.opts.legacy =>
+              /\ BdCode(p.bd) = r.opts.code /\ ~BdReserved(p.bd)
+              /\ FlgVersion(p.flg) = 1 /\ ~FlgReserved(p.flg) /\ ~FlgDictID(p.flg) /\ FlgIndep(p.flg)
+              /\ FlgBlockCS(p.flg) = r.opts.bcs
+              /\ FlgContentCS(p.flg) = r.opts.ccs
+              /\ p.csize = r.opts.size
+              /\ \A k \in 1 .. K : p.blocks[k].size <= MaxBlockOf(r.opts.code) /\ p.blocks[k].dec <= MaxBlockOf(r.opts.code))
+        /\ (r.opts.legacy =>
+              /\ \A k \in 1 .. K : ~p.blocks[k].raw /\ p.blocks[k].dec <= LegacyBlock
+              /\ (r.noflush => \A k \in 1 .. K - 1 : p.blocks[k].dec = LegacyBlock))
+
 \* ---- reads of arbitrary bytes (C05 / C06 / C07) ---------------------------
 \* outcome: "clean" (io.EOF from Read / nil from WriteTo), "error", "panic", "hang"
 \* C05: a clean end implies the independent parser accepts the consumed bytes and yields the same output
@@ -88,6 +109,7 @@ RefOK(r) ==
 RecordOK(r) ==
     CASE r.ev = "hdr" -> HdrOK(r)
       [] r.ev = "emit" -> EmitOK(r)
+      [] r.ev = "emitbig" -> EmitBigOK(r)
       [] r.ev = "refparse" -> RefOK(r)
       [] r.ev = "read" -> (CASE Prop = "C05" -> SoundOK(r)
                              [] Prop = "C06" -> TruncOK(r)
